@@ -58,6 +58,9 @@ def relabel(b, ctr, pick):
         ctr[0] += 1; l = ctr[0]; return ['filter', b[1], l, relabel(b[3], ctr, pick)]
     if t == 'fcall':
         ctr[0] += 1; return ['fcall', b[1], b[2], ctr[0]]
+    if t == 'withctx':
+        ctr[0] += 1; l = ctr[0]; return ['withctx', l, relabel(b[2], ctr, pick)]
+    if t == 'tamper': return ['tamper']
     raise ValueError(t)
 
 def lab(b, seed=0):
@@ -67,10 +70,11 @@ def rand_body(rng, depth, ctxfree=False, rich=True):
     """random body; ctxfree: no statement that refers to `ctx` at the outermost level"""
     r = rng.random()
     if depth <= 1 or r < 0.25:
-        ch = ['noop', 'raise', 'raise', 'fcall'] if ctxfree else ['noop', 'raise', 'raise', 'set', 'set', 'force', 'capture', 'fcall']
-        if not rich: ch = [c for c in ch if c != 'fcall']
+        ch = ['noop', 'raise', 'raise', 'fcall', 'tamper'] if ctxfree else ['noop', 'raise', 'raise', 'set', 'set', 'force', 'capture', 'fcall', 'tamper']
+        if not rich: ch = [c for c in ch if c not in ('fcall', 'tamper')]
         t = rng.choice(ch)
         if t == 'noop': return ['noop']
+        if t == 'tamper': return ['tamper']
         if t == 'raise': return ['raise', 0, 0, 0]
         if t == 'set': return ['set', rng.randrange(2)]
         if t == 'fcall': return ['fcall', rng.randrange(len(P.PREDS)), rng.randrange(4), 0]
@@ -84,15 +88,24 @@ def rand_body(rng, depth, ctxfree=False, rich=True):
 def has_direct0(b):
     """does the body call force_reraise()/capture() on the context it is the block of?"""
     t = b[0]
-    if t in ('force', 'capture'): return True
+    if t in ('force', 'capture', 'withctx'): return True
     if t in ('seq', 'try'): return has_direct0(b[1]) or has_direct0(b[2])
     if t == 'filter': return has_direct0(b[3])
+    return False
+
+def has_tamper(b):
+    t = b[0]
+    if t == 'tamper': return True
+    if t in ('seq', 'try'): return has_tamper(b[1]) or has_tamper(b[2])
+    if t in ('nested', 'filter'): return has_tamper(b[3])
+    if t == 'withctx': return has_tamper(b[2])
     return False
 
 def depth_of(b):
     t = b[0]
     if t in ('seq', 'try'): return 1 + max(depth_of(b[1]), depth_of(b[2]))
     if t in ('nested', 'filter'): return 1 + depth_of(b[3])
+    if t == 'withctx': return 1 + depth_of(b[2])
     return 1
 
 # ---------------------------------------------------------------- cases
@@ -136,6 +149,45 @@ def gen_cases(rng, tier):
     for i in range(1500 if quick else 60000):
         yield {'op': 'sare', 'mode': 'post', 'post': 1 + i % 2, 'r0': rng.randrange(2), 'oc': rng.randrange(NCLS), 'ok': rng.randrange(3),
                'body': lab(rand_body(rng, rng.randint(3, 5), rich=(i % 4 == 0)), rng.randrange(1000))}
+    # bodies that tamper with the saved exception's __traceback__ (set it to None; re-raise-and-catch the same
+    # object elsewhere: through a rejecting filter call, through a nested context)
+    detours = [['tamper'], ['try', ['fcall', 0, 0, 0], ['noop']], ['try', ['nested', 1, 0, ['noop']], ['noop']],
+               ['try', ['fcall', 0, 3, 0], ['tamper']], ['try', ['nested', 1, 0, ['tamper']], ['noop']]]
+    for d1 in detours:
+        for d2 in [['noop'], ['set', 1], ['set', 0]] + detours:
+            for r0 in (0, 1):
+                for mode in ('with', 'direct', 'post'):
+                    n += 1
+                    c = {'op': 'sare', 'mode': mode, 'r0': r0, 'oc': n % NCLS, 'ok': (n // NCLS) % 3, 'body': lab(['seq', d1, d2], n)}
+                    if mode == 'post': c['post'] = 1 + n % 2
+                    yield c
+    for i, b in enumerate(bodies(2)):
+        yield {'op': 'sare', 'mode': 'with', 'r0': i % 2, 'oc': i % NCLS, 'ok': i % 3, 'body': lab(['seq', ['tamper'], b], i)}
+        yield {'op': 'sare', 'mode': 'with', 'r0': (i + 1) % 2, 'oc': i % NCLS, 'ok': i % 3, 'body': lab(['seq', b, ['tamper']], i)}
+    # ONE context object entered more than once: earlier rounds under other exceptions (with blocks whose outcome is
+    # caught - a loop unrolled -, or an explicit capture()), then the with block under the original exception
+    def rounds(k, bs, caps):
+        out = []
+        for j in range(k):
+            first = ['capture', 0] if caps[j] else ['try', ['withctx', 0, bs[j]], ['noop']]
+            out.append(['try', ['raise', 0, 0, 0], first])
+        r = out[-1]
+        for x in reversed(out[:-1]): r = ['seq', x, r]
+        return r
+    small = bodies(1) + [['tamper'], ['try', ['raise', 0, 0, 0], ['noop']], ['seq', ['set', 1], ['noop']], ['seq', ['set', 0], ['noop']]]
+    for b1 in small:
+        for cap in (0, 1):
+            for b2 in small:
+                for r0 in (0, 1):
+                    n += 1
+                    yield {'op': 'sare', 'mode': 'reuse', 'r0': r0, 'oc': n % NCLS, 'ok': (n // NCLS) % 3,
+                           'pre': lab(rounds(1, [b1], [cap]), n), 'body': relabel(b2, [499], lambda m: ((n + m) % NCLS, m % 3))}
+    for i in range(1200 if quick else 50000):
+        k = rng.randint(1, 3)
+        pre = rounds(k, [rand_body(rng, rng.randint(1, 3), rich=False) for _ in range(k)], [rng.random() < 0.3 for _ in range(k)])
+        sd = rng.randrange(1000)
+        yield {'op': 'sare', 'mode': 'reuse', 'r0': rng.randrange(2), 'oc': rng.randrange(NCLS), 'ok': rng.randrange(3),
+               'pre': lab(pre, sd), 'body': relabel(rand_body(rng, rng.randint(1, 4), rich=(i % 3 == 0)), [499], lambda m: ((sd + m) % NCLS, m % 3))}
     # random deeper bodies, filters and direct calls mixed in
     for i in range(3000 if quick else 250000):
         d = 4 if i % 3 else rng.randint(5, 7)
@@ -148,6 +200,16 @@ def gen_cases(rng, tier):
             for c in range(NCLS):
                 for k in range(3):
                     yield {'op': 'filter', 'p': p, 'use': use, 'body': ['raise', c, k, 10]}
+    # bound-method filter on a class with several instances whose predicates differ through instance state
+    for p in range(len(P.PREDS)):
+        for p2 in range(len(P.PREDS)):
+            if p2 == p: continue
+            for c in range(NCLS):
+                yield {'op': 'filter', 'p': p, 'use': 3, 'p2': p2, 'body': ['raise', c, (p + p2 + c) % 3, 10]}
+                yield {'op': 'call', 'p': p, 'use': 3, 'p2': p2, 'a': 0, 'active': 1, 'oc': c, 'ok': (p + p2 + c) % 3}
+    for i in range(300 if quick else 10000):
+        yield {'op': 'filter', 'p': rng.randrange(len(P.PREDS)), 'use': 3, 'p2': rng.randrange(len(P.PREDS)),
+               'body': lab(rand_body(rng, rng.randint(2, 4), ctxfree=True), rng.randrange(1000))}
     for i in range(1500 if quick else 40000):
         yield {'op': 'filter', 'p': rng.randrange(len(P.PREDS)), 'use': rng.randrange(3),
                'body': lab(rand_body(rng, rng.randint(2, 4), ctxfree=True), rng.randrange(1000))}
@@ -201,7 +263,7 @@ def oracle(c, io):
     op = c['op']
     if op == 'sare':
         mode = c['mode']
-        if mode in ('with', 'post'):
+        if mode in ('with', 'post', 'reuse'):
             post = mode == 'post'
             if post and not f['with_finished']: return 'harness: with statement not finished'
             o_is_entry, o_none, o_is_body, tb_kept, nlog = ((f['w_is_entry'], f['w_none'], f['w_is_body_exc'], f['w_tb_kept'], f['w_logs2']) if post
@@ -221,7 +283,10 @@ def oracle(c, io):
                 # the saved exception must still be the one force_reraise() raises afterwards
                 if not f['out_is_entry']:
                     return 'force_reraise() after the with block did not raise the exception saved on entry (%s)' % io.split(' ')[0]
-                if not f['entry_tb_kept']: return 'force_reraise() after the with block lost the traceback of the original raise'
+                # capture() after the block saves the traceback the exception has THEN: if the program itself wiped it,
+                # there is nothing the helper could restore
+                if not f['entry_tb_kept'] and not (c['post'] == 2 and has_tamper(c['body'])):
+                    return 'force_reraise() after the with block lost the traceback of the original raise'
         elif mode == 'noactive':
             if not f['completed'] and f['flag'] is not None:
                 if not f['out_is_body_exc']: return 'the body raised, but what came out is not the exception the body raised'
@@ -295,11 +360,15 @@ def toks(b):
     if t == 'capture': return [7, b[1]]
     if t == 'filter': return [8, b[1], b[2]] + toks(b[3])
     if t == 'fcall': return [9, b[1], b[2], b[3]]
+    if t == 'withctx': return [10, b[1]] + toks(b[2])
+    if t == 'tamper': return [11]
     raise ValueError(t)
 
 def encode(c):
     op = c['op']
     if op == 'sare':
+        if c['mode'] == 'reuse':
+            return ['sare', 5, c['r0'], c['oc'], c['ok']] + toks(c['pre']) + toks(c['body'])
         m = {'with': 0, 'direct': 1, 'noactive': 2, 'post': 2}[c['mode']] + c.get('post', 0)
         return ['sare', m, c['r0'], c['oc'], c['ok']] + toks(c['body'])
     if op == 'filter': return ['filter', c['p'], c['use']] + toks(c['body'])
